@@ -516,7 +516,7 @@ def exact_case(ctx, ebatch, case, brute_budget=1500):
         ctx.nontrivial("exact:" + json.dumps(case, sort_keys=True))
     ctx.dist("exact n_cols", case["n_cols"]); ctx.dist("exact pedigree", case.get("ped", "?"))
     n_brute = ctx.extra.get("exact_brute_requested", 0)
-    brute = G.brute_cost(case) <= brute_budget and n_brute < (30 if ctx.quick else 400) * ctx.scale
+    brute = G.brute_cost(case) <= brute_budget and n_brute < (30 if ctx.quick else 150) * ctx.scale
     if brute:
         ctx.extra["exact_brute_requested"] = n_brute + 1
     ebatch.add(case, impl, brute)
@@ -753,7 +753,7 @@ def run(ctx):
     import time as _time
     _t_exact = _time.time()
     ebatch = ExactBatch(ctx)
-    n_exact = (120 if ctx.quick else 1500) * ctx.scale
+    n_exact = (120 if ctx.quick else 600) * ctx.scale
     for k in range(n_exact):
         if k % 4 == 3:
             ped = rng.choice(["single"] * 4 + ["two_unrelated", "trio"])
@@ -788,7 +788,7 @@ def run(ctx):
         ctx.extra["exhaustive_single_le3reads_le3cols"] = cnt
         ctx.extra["exhaustive"] = True
 
-    for _ in range((1 if ctx.quick else 8) * ctx.scale):
+    for _ in range((1 if ctx.quick else 5) * ctx.scale):
         writer_cases(ctx, 400 if ctx.quick else 1500)
 
     import time
